@@ -65,6 +65,11 @@ CHECKS = {
         note="Trusted: as C01; Engine/Rerun.v models the program value between runs. PARTIAL: idempotence with aggregation / lattices is exercised by the tie, not yet a theorem. The defect that made aggregates double on a second run was repaired (fix commit 949309d).",
         technique="Coq proof (least-model idempotence / monotonicity over the engine theorem) + history correspondence",
         ref="5/C13"),
+    "C18": dict(
+        text="Theorems (Coq, all finite histories, after every operation): UnionFind (add / find / union, raw ids included) never errs — every unchecked index is in bounds, find terminates on fuel = number of elements, no assertion fails —, two items are in the same class exactly when connected by the unions performed, and the structure's own ok() holds; TrRelUnionFind never panics, both assert_* checks hold, and contains / iter_all / set_of / rev_set_of / count_exact / is_empty equal the reflexive transitive closure of the added pairs on mentioned elements (sound AND complete, across class collapses). Nothing partial. Tie: Gallina models vs uf.rs / trrel_union_find.rs incl. complete internal state (63-bit fingerprint per history, refetch on mismatch) and an independent python closure oracle, exhaustive small + random long histories.",
+        note="Trusted: Coq kernel + VM; ds_uf harness (an include! copy of uf.rs run in lockstep for the private ok(); state read through derived Debug); gen/props/c18.py encoders / oracles; the 63-bit fingerprint; hashbrown / std collections; HashSet iteration order not modelled (commuting updates); EqRel (private module) is covered under C10.",
+        technique="Coq proof (invariant + refinement to the reference closure, induction over histories) + model/impl/oracle correspondence after every operation (ds_uf)",
+        ref="5/C18"),
     "C19": dict(
         text="Theorems (Coq, every iteration-order oracle, every shard placement, every interleaving of atomic steps): each index type of the model refines the abstract multimap / set — insert, insert_if_not_present (true iff absent), lookup (exact values with multiplicity), iteration (each entry once), move_index_contents whichever side is larger, merge (total'=total+delta, delta'=new, new'=empty), freeze/unfreeze identity, combined view = sum; concurrent inserts all retained, exactly one insert_if_not_present winner per racing key; whole-history theorems for RelIndexType1 and the CRelIndex stratum protocol; CRelNoIndex merge under the explicit equal-shard-count precondition, conservation otherwise, the equation refuted for unequal counts (reproduced on the real code; C20's subject). Tie: implementation vs model vs independent python oracle on exhaustive-small + random histories, races under rayon pools 1/2/3/8 and std threads.",
         note="Trusted: Coq kernel + VM; hand-written Gallina mirror of the index sources (tied, not verified); DashMap shard locks / RwLock / hashbrown / std collections atomic and as documented; real schedules are sampled, not enumerated; CRelIndex::len_estimate only tied.",
